@@ -269,6 +269,7 @@ def check_case(case):
                 if broker.get(other) != "other-value" or log.count("other") != 1:
                     vio.append(("resolution:points-independent", {"other": "other-value", "runs": 1},
                                 {"other": val(broker.get(other)), "runs": log.count("other")}, feats))
+            case["_outcome"] = "handler=%s:%s:bodies-run=%d" % (handler, "value" if exp_present else "absent", len(ran))
             return vio
         finally:
             G.cleanup_components(created)
@@ -299,7 +300,8 @@ def run_unit(unit, tier):
                 import traceback
                 vio = [("harness:raises", "no exception", traceback.format_exc()[-900:], {})]
             declared = sum(1 for (b, o) in impls if active in ctx_set(b))
-            res.case(nontrivial=declared >= 2, outcome=",".join(sorted(set(v[0] for v in vio))) or "ok",
+            oc = case.pop("_outcome", "?")
+            res.case(nontrivial=declared >= 2, outcome=(",".join(sorted(set(v[0] for v in vio))) or "ok") + "|" + oc,
                      sample=case if res.evals % 700 == 3 else None)
             res.transitions += len(impls)
             res.traces += 1
